@@ -81,7 +81,7 @@ package client
 //@   atcall[C05.counter_only_incremented] sync/atomic.AddUint64 : arg1 == 1
 //@   ensures[C05.one_id_per_call C01.one_id_per_call] ncalls("sync/atomic.AddUint64") <= old(ncalls("sync/atomic.AddUint64")) + 1
 //@   ensures[C06.unary_request_once C01.one_request] ncalls("(types.RpcReadWriter).Write") <= old(ncalls("(types.RpcReadWriter).Write")) + 1
-//@   ensures[C14.released C05.released] bound("streamId") ==> !(streamId in rm.handlers)
+//@   ensures[C14.released C05.released C13.released C11.released] bound("streamId") ==> !(streamId in rm.handlers)
 //@   ensures[C13.success_only_with_data C03.result_wellformed C09.no_fabricated_success] result.1 == nil ==> result.0 != nil
 //@   ensures[C01.reply_is_own C05.reply_is_own C13.success_only_with_data] result.1 == nil ==> bound("resp") && resp.Id == streamId && result.0 == resp.Body
 //@   ensures[C03.ok_status_body] bound("resp") && resp != nil && resp.Status != nil && resp.Status.Code == 0 && resp.Body != nil ==> result.1 == nil && result.0 == resp.Body
